@@ -7,13 +7,16 @@ Three kinds of cases, all on the real classes of ``darsia.corrections.color``:
   exact-map recovery whenever the balance class contains the map, residual monotonicity for
   *every* (class, map) pair, from the identity and from a prescribed non-identity balance,
   through ``find_balance + apply_balance``, ``__call__`` and the module-level shortcuts.
-* ``staged``  every ordered pair and triple of AdaptiveBalance stages.  After every stage the
-  accumulated ``balance_scaling`` / ``balance_translation`` must be the row-vector composition
-  (the convention of ``apply_balance``: ``x @ A + b``) of the previous balance with the stage
-  balance, the stage balance being re-fitted independently (plain White/Color/AffineBalance
-  on the pre-balanced swatches); applying the accumulated balance must equal applying the
-  stage balances one after the other; the residual must not grow; and a sequence one of
-  whose stages is general enough to absorb the whole remaining map must reproduce ``dst``.
+* ``staged``  every ordered pair and triple of AdaptiveBalance stages, all stages aiming at the
+  same destination or every stage at a different one (``targets = moving``; this is what keeps
+  the later stages away from the identity, so that a wrong composition is visible).  After
+  every stage the accumulated ``balance_scaling`` / ``balance_translation`` must be the
+  row-vector composition (the convention of ``apply_balance``: ``x @ A + b``) of the previous
+  balance with the stage balance, the stage balance being re-fitted independently (plain
+  White/Color/AffineBalance on the pre-balanced swatches); applying the accumulated balance
+  must equal applying the stage balances one after the other; the residual must not grow; and
+  a sequence one of whose stages is general enough to absorb the whole remaining map must
+  reproduce the (last) destination.
 * ``correction``  ``ColorCorrection.correct_array`` (white balance on the last swatch row,
   then linear/affine balance on the other rows) on a synthetic colour-checker image.
 
